@@ -9,6 +9,19 @@ theorem solo_append (m : Mem) (as : List Act) (a : Act) :
   | nil => simp [solo]
   | cons b bs ih => simp [solo, ih]
 
+/-- **A lookup is pure**: it leaves the memory unchanged … -/
+theorem lookup_pure (m : Mem) (cs : List Nat) : (exec m (.read cs)).1 = m := rfl
+
+/-- … and its result is a function of the cells in its footprint only. -/
+theorem lookup_footprint (m m' : Mem) (cs : List Nat) (h : ∀ x ∈ cs, m x = m' x) :
+    (exec m (.read cs)).2 = (exec m' (.read cs)).2 := by
+  simp only [exec]
+  exact List.map_congr_left h
+
+/-- a view write touches exactly its one cell -/
+theorem write_frame (m : Mem) (c v x : Nat) (h : x ≠ c) : (exec m (.write c v)).1 x = m x := by
+  simp [exec, h]
+
 /-- invariant over schedule prefixes: each thread sees, on its own footprint, the initial memory updated by its
     own earlier writes only, and has obtained exactly the values of running alone -/
 structure Inv (m0 : Mem) (prog : Nat → List Act) (s : State) : Prop where
